@@ -130,12 +130,21 @@ def run_profile(ctx, prop, profile, nseq, nops, size, kinds=None, seed_off=0, sh
             stats['nshrunk'] = nshrunk + 1
             upto = [o for o in ops if int(o.split()[0]) <= int(st['id'])] if st['id'].isdigit() else ops
 
+            def first_owned(ss):
+                # the first step that breaks a relation of this property (failures of other relations, e.g. an open
+                # finding of another property earlier in the sequence, are not what is being minimised)
+                for j_, x in enumerate(ss):
+                    if (x['panic'] or not x['reply'] or x['nabs'] or x['nwf'] or not x['alloc'] or not x.get('trace', 1)) and \
+                            any(a in kinds or a == 'panic' for a, _ in vlib.classify_all(x)):
+                        return j_
+                return None
+
             def pred(ss):
-                j = vlib.first_failure(ss)
-                return j is not None and signature(ss[j])[:2] == (kind, proc)
-            small = vlib.shrink(hdr, upto, pred, budget=20)
+                j = first_owned(ss)
+                return j is not None and ss[j]['proc'] == proc
+            small = vlib.shrink(hdr, upto, pred, budget=20 if len(upto) < 2000 else 4)
             ss, _, _ = vlib.judge_ops(hdr, small, 'final')
-            j = vlib.first_failure(ss)
+            j = first_owned(ss)
             if j is not None:
                 kind, proc, detail = signature(ss[j])
                 final_step = ss[j]
